@@ -88,6 +88,9 @@ class C06(Prop):
             "req_msgs": t.choice((1, 1, 1, 2, 3)), "req_gap": t.choice((0.0, 0.0, 0.3)),
             # (ASGI) loop iterations take (virtual) time: a timer may fall due between callbacks that became ready at one instant
             "tick": t.draw(2) == 0,
+            # (ASGI) the stream answers a refused WebSocket handshake: WebsocketDenialResponse(StreamResponse / SendEventResponse)
+            # on a websocket scope of a server offering the websocket.http.response extension; the peer leaving is a websocket.disconnect
+            "via_denial": surface.startswith("asgi") and t.draw(8) == 0,
             # (byte streams) some steps of the producer yield b"" - a heartbeat that gives the response a chance to look at the client
             "empty_items": [i for i in range(n) if t.draw(4) == 0] if surface.endswith("stream") and t.draw(3) == 0 else [],
         }
@@ -122,6 +125,9 @@ class C06(Prop):
                 vs.append(("time", round(f * t_end, 3)))
             # the transport fails: the j-th send() raises (the producer must still be released)
             vs += [("sendraise", j) for j in range(1, min(n_em, 10) + 1)]
+            # the client stops reading at the j-th send() and the server gives up on it: it cancels the response call
+            # (write time-out, shutdown, cancel-on-disconnect servers); the call must end and release everything
+            vs += [("cancel", j) for j in range(1, min(n_em, 6) + 1)]
         elif plan["surface"] == "wsgi-sse" and (plan.get("crowd") or {}).get("mode") == "open":
             # the client goes away at an arbitrary instant; a WSGI server notices when the iterable hands something back
             for f in plan["time_fracs"]:
@@ -271,6 +277,8 @@ class C06(Prop):
                         kw["disconnect_after_sends"] = variant[1]
                 elif variant[0] == "sendraise":
                     kw["send_raise_at"] = variant[1]
+                elif variant[0] == "cancel":
+                    kw["send_stall_from"] = variant[1]
                 else:
                     kw["disconnect_time"] = variant[1]
             peer = AsgiHttpPeer(loop, ctx, ctx.sched, req, send_lats=lats, raise_after_disconnect=plan["raising"], surface=surf, recv_raises_after_script=plan.get("recv_raises", False), **kw)
@@ -279,22 +287,56 @@ class C06(Prop):
             peer.on_disconnect_delivered = lambda: (st.setdefault("n_at_deliv", len(st["events"])), st.setdefault("t_deliv", loop.time()))
             it = build_iterable(loop)
             r = SendEventResponse(it, ping_interval=P) if sse else StreamResponse(it)
+            scope, receive, send = peer.scope, peer.receive, peer.send
+            if plan.get("via_denial") and k == 1:
+                from baize.asgi import WebsocketDenialResponse
+                ctx.probe("stream_as_websocket_denial_response")
+                r = WebsocketDenialResponse(r)
+                scope = dict(peer.scope, type="websocket", extensions=dict(peer.scope.get("extensions") or {}, **{"websocket.http.response": {}}))
+                back = {"websocket.http.response.start": "http.response.start", "websocket.http.response.body": "http.response.body"}
+
+                async def receive():
+                    m = await peer.receive()
+                    if m["type"] == "http.disconnect":
+                        return {"type": "websocket.disconnect", "code": 1006}
+                    return {"type": "websocket.connect"}
+
+                async def send(m):
+                    if m.get("type") not in back:
+                        raise AssertionError("not a denial-response event on a websocket scope: %r" % (m.get("type"),))
+                    await peer.send(dict(m, type=back[m["type"]]))
             exc = None
             # the call runs as a task of its own: if it ends in CancelledError although nobody cancelled it, that is its outcome
-            call = loop.create_task(r(peer.scope, peer.receive, peer.send), name="response")
+            call = loop.create_task(r(scope, receive, send), name="response")
+            server_cancelled = None
             try:
-                await asyncio.wait([call])
+                if variant is not None and variant[0] == "cancel":
+                    await asyncio.wait([call, peer.stalled], return_when=asyncio.FIRST_COMPLETED)
+                    if not call.done():
+                        await asyncio.sleep(plan["time_fracs"][0] * P)     # the server's write time-out
+                        ctx.fault("server_cancels_response_call")
+                        server_cancelled = loop.time()
+                        call.cancel()
+                        await asyncio.wait([call], timeout=P + 3 * L_max + cdelay + 0.01)
+                        if not call.done():
+                            st["cancel_ignored"] = True
+                            call.cancel()       # a second cancellation, so that the run can be judged
+                            await asyncio.wait([call], timeout=P + 3 * L_max + cdelay + 0.01)
+                            if not call.done():
+                                raise SimDeadlock("the response call survived two cancellations by the server")
+                else:
+                    await asyncio.wait([call])
             finally:
                 if not call.done():
                     call.cancel()
             if call.cancelled():
-                exc = SpuriousCancel("the response call ended in CancelledError although nobody cancelled it")
+                exc = None if server_cancelled is not None else SpuriousCancel("the response call ended in CancelledError although nobody cancelled it")
             elif call.exception() is not None:
                 exc = call.exception()
                 if isinstance(exc, (SimDeadlock, SimTimeLimit, SimStepLimit)):
                     raise exc
             t_ret = loop.time()
-            if exc is None:
+            if exc is None and server_cancelled is None:
                 peer.monitor.on_return()
             await asyncio.sleep(cdelay + 0.002)
             for _ in range(6):
@@ -302,7 +344,7 @@ class C06(Prop):
             pend = [tk for tk in asyncio.all_tasks(loop) if tk is not asyncio.current_task() and not tk.done()]
             snap = {"exc": exc, "t_ret": t_ret, "pend": len(pend), "pend_names": sorted(getattr(tk.get_coro(), "__qualname__", "?") for tk in pend),
                     "st": dict(st, events=list(st["events"])), "t_disc": peer.t_disconnect if peer.disc_why not in (None, "complete") else None,
-                    "body": peer.body, "sends": peer.sends_completed, "complete": peer.complete,
+                    "busy": peer.busy_polling, "body": peer.body, "sends": peer.sends_completed, "complete": peer.complete,
                     "pings": peer.body.count(b": ping\n\n")}
             inner = st.get("inner")
             if inner is not None:   # iterator without aclose: release it ourselves after the snapshot
@@ -337,10 +379,14 @@ class C06(Prop):
                 pass    # the transport's own failure may leave the call (today the watcher's failure is dropped)
             else:
                 ctx.violate("C06|%s|exception|foreign-exception|%s" % (surf, type(exc).__name__), repr(exc))
-        elif boom_at is not None and t_disc is None and not (variant is not None and variant[0] == "sendraise"):
+        elif boom_at is not None and t_disc is None and not (variant is not None and variant[0] in ("sendraise", "cancel")):
             ctx.violate("C06|%s|exception|producer-exception-swallowed" % surf, "producer raised at step %d, call returned normally" % boom_at)
         if variant is not None and variant[0] == "sendraise" and exc is None and snap["sends"] + 1 >= variant[1] and ctx.faults.get("send_raises"):
             ctx.violate("C06|%s|exception|send-error-swallowed" % surf, "send() call %d raised, the response call returned normally" % variant[1])
+        if snap["busy"]:
+            ctx.violate("C06|%s|termination|busy-polls-receive-after-disconnect" % surf, "receive() was called more than 5000 times after it had delivered the disconnect")
+        if snap["st"].get("cancel_ignored"):
+            ctx.violate("C06|%s|termination|server-cancellation-does-not-end-the-call" % surf, "client stopped reading at send() call %d, the server cancelled the call; it was still running %.3f s later" % (variant[1], P + 3 * L_max + cdelay + 0.01))
         # 1. termination bound (virtual time)
         if t_disc is not None:
             # the application can react only once receive() has returned the disconnect to it
@@ -374,7 +420,7 @@ class C06(Prop):
         # 3. delivery
         # without a fault everything the producer yielded - also before it raised its own exception - must have been delivered
         self._check_delivery(plan, ctx, surf, snap["body"], complete_expected=(t_disc is None and variant is None and (exc is None or exc is boom or exc is cboom)))
-        if t_disc is None and exc is None and not snap["complete"] and not ctx.faults.get("send_raises"):
+        if t_disc is None and exc is None and not snap["complete"] and not ctx.faults.get("send_raises") and not ctx.faults.get("server_cancels_response_call"):
             ctx.violate("C06|%s|termination|returned-without-final-body" % surf, "")
 
     # ======================= WSGI SSE (threads) =======================
